@@ -102,7 +102,7 @@ EvWRc(d, res) == [k |-> conn, dst |-> d, mc |-> IsMc(d), ok |-> (res = "ok"), cl
 EvWR(d, ok) == EvWRc(d, IF ok THEN "ok" ELSE "other")
 EvInC(kind, cls, src, hl) == [k |-> conn, kind |-> kind, cls |-> cls, src |-> src, hl |-> hl, t |-> now]
 EvIn(kind, src, hl) == EvInC(kind, "", src, hl)
-EvCnt(c)    == [c |-> c, t |-> now]
+EvCnt(c)    == [c |-> c, v |-> 1000, t |-> now]
 EvRC        == [k |-> conn, t |-> now]
 EvK         == [k |-> conn, t |-> now]
 \* buildRA: the forwarding read, plus the interface_not_forwarding log line when the lifetime is overridden
